@@ -51,6 +51,12 @@ sq.grow(1).describe()
 sq.edge
 Shape.sides
 text = sq.name.upper()
+wide = (sq.
+        edge)
+chain = sq.grow(1).\\
+    describe()
+print(Shape.
+      sides, sq .  name)
 ''',
     'closures': '''import sys
 counter = 0
@@ -100,10 +106,11 @@ def sites(text):
         if isinstance(n, ast.Name) and isinstance(n.ctx, ast.Load):
             k = len(n.id)
             out.append(('name', n, [(n.lineno, n.col_offset + j) for j in sorted(set((1, k // 2 or 1, k)))]))
-        elif isinstance(n, ast.Attribute) and isinstance(n.ctx, (ast.Load, ast.Store)) and n.end_lineno == n.lineno:
+        elif isinstance(n, ast.Attribute) and isinstance(n.ctx, (ast.Load, ast.Store)):
+            # the attribute name is the last token of the node: on its last line, which need not be the line of the dot
             k = len(n.attr)
             start = n.end_col_offset - k
-            out.append(('attr', n, [(n.lineno, start + j) for j in sorted(set((0, 1, k)))]))
+            out.append(('attr', n, [(n.end_lineno, start + j) for j in sorted(set((0, 1, k)))]))
     return out
 
 
